@@ -64,6 +64,10 @@ CONTAINERS = ["list", "tuple", "gen", "stream", "src", "seqproto", "submix",
               "hub1", "hub2", "substream", "deque", "iter"]
 
 
+def _a_callable_value():
+  return "called"
+
+
 class SeqProto(object):
   """ Iterable only through the old sequence protocol (no __iter__). """
 
@@ -685,6 +689,9 @@ class C16(Property):
     sets = [100 + 13 * i for i in range(wl["nset"])]
     if mode in ("direct", "copy", "map", "limit-skip") and len(sets) >= 2:
       sets[1] = None          # None is a value like any other
+    if mode in ("direct", "copy", "map", "limit-skip") and len(sets) >= 3:
+      # callables are values like any other too (a function, a type)
+      sets[2] = _a_callable_value if wl["nset"] % 2 else int
     reads = list(wl["reads"])
     late = 0
     choices = []
